@@ -90,15 +90,37 @@ def gen_overrides(rng, desc, n=None):
     return out
 
 
-def to_inputs(desc, X):
+def to_inputs(desc, X, as_ranges=None):
+    """as_ranges: None = plain python values; 'own' = a Ranges object built
+    for the node's own address; 'other' = a Ranges object built for another
+    address (what one gets when a value of another solution is fed back)."""
     inp = {}
     for kind, key, val in X:
+        v = _lib_arg(val)
         if kind in ('cell', 'formula-cell'):
-            inp[gw.key_of(desc, *key)] = _lib_arg(val)
+            nid = gw.key_of(desc, *key)
         elif kind == 'range':
-            inp[gw.rect_key(desc, *key)] = _lib_arg(val)
+            nid = gw.rect_key(desc, *key)
         else:
-            inp[_name_id(desc, key[0])] = _lib_arg(val)
+            nid = _name_id(desc, key[0])
+        if as_ranges and kind != 'name':
+            from formulas.ranges import Ranges
+            import numpy as np
+            arr = np.empty((len(v), len(v[0])) if isinstance(v, list) else (1, 1), object)
+            if isinstance(v, list):
+                for i, row in enumerate(v):
+                    for j, x in enumerate(row):
+                        arr[i, j] = x
+            else:
+                arr[0, 0] = v
+            if as_ranges == 'own':
+                ref = nid
+            else:
+                r, c = arr.shape
+                ref = 'Y77' if (r, c) == (1, 1) else 'Y77:%s%d' % (
+                    gw.col_name(25 + c - 1), 77 + r - 1)
+            v = Ranges().push(ref, arr)
+        inp[nid] = v
     return inp
 
 
@@ -192,26 +214,30 @@ def check_history(case, ctx):
                     type(ex).__name__, str(ex)[:150]), 'accepted': ['no exception']})
             return
     X = case['X']
-    inp = to_inputs(desc, X)
+    mode = case.get('as_ranges')
+    inp = to_inputs(desc, X, mode)
     absent = [k for k in inp if k not in live.dsp.nodes]
     if absent:
         ctx.count('skipped.override-node-absent')
         X = [x for x in X if list(to_inputs(desc, [x]))[0] in live.dsp.nodes]
-        inp = to_inputs(desc, X)
+        inp = to_inputs(desc, X, mode)
         if not X:
             return
+    if mode:
+        ctx.count('override-values-as-Ranges.' + mode)
     kinds = '+'.join(sorted({x[0] for x in X}))
     for x in X:
         ctx.count('override.' + x[0])
     ctx.case((case['id'], case['history'], X, case['O']))
-    w = {'case': case, 'overrides': inp, 'history': case['history']}
+    w = {'case': case, 'overrides': to_inputs(desc, X), 'history': case['history'],
+         'override_values_given_as': mode or 'plain values'}
     # (1) live vs fresh, all cells
     ids = {id(n['function']): n['outputs'] for n in live.dsp.function_nodes.values()}
     EvalOrder.ids = []
     try:
         sol_live = live.calculate(inputs=dict(inp))
         evaluated = list(EvalOrder.ids)
-        sol_fresh = fresh.calculate(inputs=dict(inp))
+        sol_fresh = fresh.calculate(inputs=to_inputs(desc, X))
     except Exception as ex:
         ctx.violation('calculate-raised:%s:%s' % (type(ex).__name__, kinds), dict(
             w, observed='%s: %s' % (type(ex).__name__, str(ex)[:150]),
@@ -222,7 +248,9 @@ def check_history(case, ctx):
     ctx.count('monitor.live-vs-fresh')
     diff = [k for k in obs_live if not xl.same(obs_live[k], obs_fresh.get(k, ('missing',)))]
     if diff:
-        ctx.violation('history-dependent:%s' % '>'.join(case['history'][-2:]), dict(
+        ctx.violation(('history-dependent:%s' % '>'.join(case['history'][-2:]))
+                      if not mode or case['history'] else
+                      'override-given-as-Ranges-differs:%s' % mode, dict(
             w, cells=[gw.key_of(desc, *k) for k in diff[:5]],
             observed=[xl.show(obs_live[k]) for k in diff[:5]],
             accepted=[[xl.show(obs_fresh[k]) for k in diff[:5]]]))
@@ -335,7 +363,8 @@ def make_case(seed, i, tier):
     X = gen_overrides(rng, desc)
     O = [list(k) for k in rng.sample(forms, min(len(forms), rng.randint(1, 3)))]
     return {'kind': 'history', 'id': '%s/%s' % (seed, i), 'desc': desc,
-            'history': hist, 'X': X, 'O': O}
+            'history': hist, 'X': X, 'O': O,
+            'as_ranges': (None, None, 'own', 'other')[i % 4]}
 
 
 def _sparsify(rng, desc):
@@ -400,19 +429,95 @@ def _ranges_over_arrays(rng, desc):
                 desc.setdefault('focus_ranges', []).append(rect[1:])
 
 
+# -- circular workbooks: an override must equal the constant twin --------------------
+
+def make_circ_case(seed, i):
+    rng = random.Random('fvmon/C07/circ/%s/%s' % (seed, i))
+    n = rng.randint(3, 6)
+    depth = rng.randint(2, 7)
+    d = {'K1': float(rng.randint(1, 5))}
+    for j in range(2, depth + 1):
+        d['K%d' % j] = '=K%d+1' % (j - 1)
+    cells = ['A%d' % j for j in range(1, n + 1)]
+    k = rng.randint(2, n)                    # A1 -> A2 -> ... -> Ak -> A1
+    for j, c in enumerate(cells):
+        terms = ['%d' % rng.randint(0, 5)]
+        if j < k:
+            terms.append(cells[(j + 1) % k])
+        terms += [o for o in cells if o != c and rng.random() < 0.15]
+        if rng.random() < 0.5:
+            terms.append('K%d' % depth)
+        d[c] = '=' + '+'.join(terms)
+    d['D1'] = '=%s*2' % rng.choice(cells)
+    d['D2'] = '=IFERROR(%s,-1)' % rng.choice(cells)
+    d['D3'] = '=K%d+%s' % (depth, rng.choice(cells))
+    X = {c: float(rng.randint(-3, 9)) for c in rng.sample(cells[:k], rng.randint(1, 2))}
+    if rng.random() < 0.3:
+        X['K1'] = float(rng.randint(6, 9))
+    return {'kind': 'circ', 'id': 'circ/%s/%s' % (seed, i), 'cells': d, 'X': X,
+            'history': [rng.choice(('calc', 'calc_x', 'none')) for _ in range(2)]}
+
+
+def check_circ(case, ctx):
+    """calculate(inputs=X) on a model with circular references == the same
+    workbook where the cells of X are constants (both finished alike)."""
+    import formulas
+    d, X = case['cells'], case['X']
+    try:
+        m = formulas.ExcelModel().from_dict(dict(d)).finish(circular=True)
+        for op in case['history']:
+            if op == 'calc':
+                m.calculate()
+            elif op == 'calc_x':
+                m.calculate(inputs={k: 99.0 for k in X})
+        sol = m.calculate(inputs=dict(X))
+        twin = formulas.ExcelModel().from_dict(dict(d, **X)).finish(circular=True)
+        ref = twin.calculate()
+    except Exception as ex:
+        ctx.violation('circular:raised:%s' % type(ex).__name__, {
+            'case': case, 'observed': '%s: %s' % (type(ex).__name__, str(ex)[:150]),
+            'accepted': ['a solution']})
+        return
+    ctx.case((case['id'], sorted(X.items())))
+    ctx.count('monitor.circular-twin')
+    got = {k: xl.canon(xl.scalar(sol[k])) if k in sol else ('missing',) for k in d}
+    want = {k: xl.canon(xl.scalar(ref[k])) if k in ref else ('missing',) for k in d}
+    diff = sorted(k for k in d if not xl.same(got[k], want[k], rel=1e-12))
+    if diff:
+        k = diff[0]
+        ctx.violation('circular-override-differs-from-constant-twin:%s->%s' % (
+            wbrun._cls(got[k]), wbrun._cls(want[k])), {
+            'case': case, 'overrides': X, 'cells': [d[x] for x in diff[:4]],
+            'cell': k, 'n_cells': len(diff), 'observed': xl.show(got[k]),
+            'accepted': [xl.show(want[k]) + ' (same workbook with the overridden '
+                                            'cells written as constants)']})
+
+
 def plan(tier, seed):
     n = 160 if tier == 'quick' else 3000
     per = 10 if tier == 'quick' else 60
-    return [{'kind': 'histories', 'lo': lo, 'hi': min(n, lo + per), 'timeout': 1500}
-            for lo in range(0, n, per)]
+    specs = [{'kind': 'histories', 'lo': lo, 'hi': min(n, lo + per), 'timeout': 1500}
+             for lo in range(0, n, per)]
+    nc = 400 if tier == 'quick' else 6000
+    specs += [{'kind': 'circular', 'lo': lo, 'hi': lo + 100} for lo in range(0, nc, 100)]
+    return specs
 
 
 def check_case(case, ctx):
-    check_history(case, ctx)
+    if case['kind'] == 'circ':
+        check_circ(case, ctx)
+    else:
+        check_history(case, ctx)
 
 
 def run(spec, ctx):
     case = None
+    if spec['kind'] == 'circular':
+        for i in range(spec['lo'], spec['hi']):
+            case = make_circ_case(spec['seed'], i)
+            check_circ(case, ctx)
+        ctx.sample({'cells': case['cells'], 'overrides': case['X']})
+        return
     for i in range(spec['lo'], spec['hi']):
         c = make_case(spec['seed'], i, spec['tier'])
         if c is None:
@@ -432,7 +537,9 @@ def finalize(agg, tier):
                      ('monitor.restricted-outputs', 80), ('override.cell', 40),
                      ('override.formula-cell', 15), ('override.range', 15),
                      ('override.name', 10), ('monitor.not-reevaluated', 10),
-                     ('contract.value.cache', 100)):
+                     ('contract.value.cache', 100), ('monitor.circular-twin', 300),
+                     ('override-values-as-Ranges.own', 20),
+                     ('override-values-as-Ranges.other', 20)):
         if c.get(k, 0) < floor:
             inc.append('monitor %s saw %d events (< %d)' % (k, c.get(k, 0), floor))
     return {'inconclusive': inc, 'coverage': {
